@@ -78,5 +78,68 @@ static inline unsigned gen_l25(vf::Src &s, std::vector<tx::Packet> &out, std::ve
 	return mag << 8 | page;
 }
 
+// A POP page holding a consistent object graph (pointer table entries that point at object definitions whose address bits match the
+// invocation, bodies that write characters, move the active position and invoke other objects of the table - of a higher, the same or
+// a lower type, themselves included) and a page that links to it with X/27/4 and invokes the objects from X/26. EN 300 706 13.2 lets an
+// object invoke objects of a higher type only, which is what bounds the nesting; the generator does not respect that on purpose.
+static inline unsigned gen_objgraph(vf::Src &s, std::vector<tx::Packet> &out, std::vector<unsigned> *recent = nullptr) {
+	Bulk bk(s.u32());
+	unsigned mag = 1 + s.pick(8);
+	unsigned pp = s.chance(1, 5) ? (s.pick(10) << 4 | s.pick(10)) : (s.pick(16) << 4 | (0xA + s.pick(6)));
+	if ((pp & 0xFF) == 0xFF) pp = 0xAA;
+	unsigned pop_sub = s.pick(4);
+	uint8_t txt[32]; memset(txt, 0x20, 32);
+	tx::HeaderFlags f; f.c4_erase = s.chance(1, 2);
+	const unsigned TERM = 63 | 0x1F << 6 | 0x7F << 11;
+	struct Obj { unsigned type, ppk, g, hl, pos; };
+	std::vector<Obj> objs; unsigned K = 1 + s.pick(5), pos = s.pick(3);
+	unsigned trip[23 * 13]; for (auto &x : trip) x = TERM;
+	unsigned ptab[4][13]; for (auto &pk : ptab) for (auto &x : pk) x = 0x1FF | 0x1FF << 9;
+	auto inv_triplet = [&](const Obj &o, unsigned source, bool wrong_type) { unsigned ty = wrong_type ? 1 + bk.pick(3) : o.type; return (32 + (source << 3) + (bk.pick(2) << 2) + o.ppk) | (0x10 + ty) << 6 | (pop_sub | o.hl << 4 | o.g << 5) << 11; };
+	for (unsigned k = 0; k < K; ++k) { Obj o; o.type = 1 + s.pick(3); o.ppk = s.chance(1, 4) ? s.pick(4) : s.pick(2); o.g = s.pick(4); o.hl = s.pick(2); o.pos = 0; bool dup = false; for (auto &q : objs) if (q.type == o.type && q.ppk == o.ppk && q.g == o.g && q.hl == o.hl) dup = true; if (!dup) objs.push_back(o); }
+	for (size_t k = 0; k < objs.size(); ++k) {	// bodies
+		Obj &o = objs[k]; if (pos + 10 >= 23 * 13) break; o.pos = pos;
+		unsigned &pt = ptab[o.ppk][o.g * 3 + o.type]; pt = o.hl ? (pt & 0x1FF) | pos << 9 : (pt & ~0x1FFu) | pos;
+		trip[pos++] = o.ppk | (0x14 + o.type) << 6 | (pop_sub | o.hl << 4 | o.g << 5) << 11;	// definition, address bits as in the invocation
+		unsigned nb = 1 + s.pick(6);
+		for (unsigned b = 0; b < nb && pos + 2 < 23 * 13; ++b) {
+			unsigned w = s.pick(8);
+			if (w <= 2) trip[pos++] = bk.pick(40) | (bk.pick(2) ? 0x09 : bk.pick(2) ? 0x01 : 0x10 + bk.pick(16)) << 6 | (0x20 + bk.pick(0x60)) << 11;
+			else if (w == 3) trip[pos++] = (40 + bk.pick(24)) | (bk.pick(2) ? 0x04 : 0x01) << 6 | bk.pick(40) << 11;
+			else if (w == 4) trip[pos++] = bk.pick(40) | (bk.pick(2) ? 0x00 : 0x03) << 6 | bk.pick(32) << 11;
+			else {	// invocation of an object of this table
+				size_t tgt = s.pick((uint32_t) objs.size());
+				if (s.chance(1, 3)) tgt = k;					// itself
+				else if (s.chance(1, 2)) for (size_t j = 0; j < objs.size(); ++j) if (objs[j].type > o.type) tgt = j;	// a legal one
+				trip[pos++] = inv_triplet(objs[tgt], s.chance(1, 8) ? 3 : 2, s.chance(1, 16));
+			}
+		}
+		if (s.chance(3, 4)) trip[pos++] = TERM;
+		pos += s.pick(3);
+	}
+	out.push_back(tx::header(mag, pp, pop_sub, f, txt));
+	for (unsigned pk = 1; pk <= 4; ++pk) { bool used = false; for (auto &o : objs) if (o.ppk == pk - 1) used = true; if (used || (pk <= 2 && s.chance(1, 2))) out.push_back(tx::triplets(mag, pk, 1 | (s.pick(8) << 1), ptab[pk - 1])); }
+	for (unsigned pk = 3; pk <= 25; ++pk) {
+		if ((pk - 3) * 13 > pos) break;
+		bool ptr_pk = false; for (auto &o : objs) if (o.ppk == pk - 1) ptr_pk = true;
+		if (ptr_pk) continue;	// packet 3 / 4 carries pointers in this page, its triplet area is lost (objects there are dangling on purpose)
+		out.push_back(tx::triplets(mag, pk, s.pick(8) << 1, trip + (pk - 3) * 13));
+	}
+	// the page invoking them
+	unsigned page = s.pick(10) << 4 | s.pick(10);
+	out.push_back(tx::header(mag, page, 0, f, txt));
+	if (recent) { recent->push_back(mag << 8 | page); recent->push_back(mag << 8 | pp); }
+	for (unsigned y = 1; y <= 24; ++y) if (!bk.pick(3)) { uint8_t row[40]; for (auto &b : row) b = (uint8_t)(bk.pick(6) ? 0x20 + bk.pick(0x60) : bk.pick(0x20)); out.push_back(tx::row(mag, y, row)); }
+	{ unsigned t[13]; for (auto &x : t) x = 0; for (int i = 0; i < 6; ++i) t[i * 2] = 0xF << 7 | 0x7 << 15;
+	  unsigned lk = (pp & 15) << 7 | ((pp >> 4) & 15) << 15;
+	  if (s.chance(7, 8)) t[2] = 1 | lk; if (s.chance(1, 2)) t[0] = lk; t[3] = t[1] = (s.chance(3, 4) ? 0 : bk.pick(0x10000)) << 3;
+	  out.push_back(tx::triplets(mag, 27, 4, t)); }
+	{ unsigned t[13]; for (auto &x : t) x = TERM; unsigned n = 0;
+	  while (n + 2 < 13 && (n == 0 || s.chance(2, 3))) { t[n++] = (40 + bk.pick(24)) | 0x04 << 6 | bk.pick(40) << 11; const Obj &o = objs[s.pick((uint32_t) objs.size())]; t[n++] = inv_triplet(o, s.chance(1, 8) ? 3 : 2, s.chance(1, 16)); }
+	  out.push_back(tx::triplets(mag, 26, 0, t)); }
+	out.push_back(tx::header(mag, 0xFF, 0x3F7F, f, txt));
+	return mag << 8 | page;
+}
+
 
 } // namespace l25
